@@ -24,6 +24,9 @@ def _run_one(args):
     except (Exception, asyncio.CancelledError) as e:  # noqa: BLE001
         return {"error": "%s: %s" % (type(e).__name__, e)}
     bg = [e for st in r["steps"] for e in st["events"] if e[0] in ("bgException",)]
+    # an exception other than the documented NotOpenError / QueueOverflowError out of send(), or any out of open / close / reset
+    # (an unencodable message of the harness's own making may raise out of send(): the caller's error, not judged)
+    bg += [e for st in r["steps"] for e in st["events"] if e[0] == "apiRaised" or (e[0] == "sendRaised" and e[-1] == "ok")]
     return {"obs": sockobs.observable(r), "steps": r["steps"], "census": r["census"], "delivered": r.get("delivered", []),
             "unhandled": r.get("unhandled", []), "bg": bg}
 
@@ -99,9 +102,9 @@ def judge_family(ctx, prop_key, items, monitors, gen=4, applies=None, nontrivial
     for (fam, script, r) in good:
         if r.get("bg") or r.get("unhandled"):
             ctx.violation("%s:unhandled-exception" % prop_key,
-                          "an exception escaped a task of the client on script %s: %s %s" % (json.dumps(script), r.get("bg"), r.get("unhandled")),
+                          "an exception escaped a task or a public call of the client on script %s: %s %s" % (json.dumps(script), r.get("bg"), r.get("unhandled")),
                           kind="history", monitor="unhandled", script=script, gen=gen, implementation_output=r["obs"],
-                          spec_verdict="no exception may escape the receive / connect tasks")
+                          spec_verdict="no exception may escape the receive / connect tasks; send() raises only the documented errors")
             break
     for m, (script, obs) in failures.items():
         def still(c, m=m):
